@@ -150,6 +150,10 @@ func genBinScenario(g *Gen) Case {
 	if g.Chance(1, 4) {
 		// a very long name next to a short one (the listing table must cope)
 		names[1] = strings.Repeat("n", 45+g.Intn(30))
+	} else if g.Chance(1, 3) {
+		// names whose byte length differs much from their width in characters
+		names[0] = g.Pick("базовый", "日本語名", "ééééééééé")
+		names[2] = g.Pick("слой", "b")
 	}
 	n := 1 + g.Intn(3)
 	have := []string{}
